@@ -1,6 +1,10 @@
-(** C03 — compile accepts exactly the JMESPath language (partial, as C04).
-    Statements only. *)
-From JP Require Import Base Value Lexer Parser Gen.Tables Spec.TableSpec.
+(** C03 — compile accepts exactly the JMESPath language (partial: the reference
+    parser is proved sound for the grammar of Spec/Grammar.v — it accepts only
+    sentences, with the tree of a derivation — and to terminate; its completeness
+    and the binding-power side conditions of the derivation are not
+    machine-checked; the code is tied to the reference parser by correspondence,
+    the differences being the recorded known findings).  Statements only. *)
+From JP Require Import Base Value Lexer Parser Gen.Tables Spec.TableSpec Spec.Grammar Proofs.GrammarProof Proofs.ParseFuelProof.
 
 Theorem C03_table_order : table_order_ok gen_lbp gen_projection_stop = true.
 Proof. vm_compute. reflexivity. Qed.
@@ -21,3 +25,25 @@ Example C03_separators_required :
   (exists e, parse [91; 97; 32; 98; 93] = Err e) /\ (exists e, parse [91; 32; 93] = Err e) /\
   (exists e, parse [102; 40; 97; 32; 98; 41] = Err e) /\ (exists a, parse [102; 40; 41] = Ok a).
 Proof. vm_compute. repeat split; eexists; reflexivity. Qed.
+
+(** Soundness of the reference parser: an accepted expression lexes to the
+    flattening of a syntax tree of the grammar (one constructor per production of
+    the JMESPath grammar, Spec/Grammar.v) followed by the end-of-input token, and
+    the returned tree is the abstract tree of that syntax tree.  So the
+    reference parser — the sentence oracle of this property — accepts nothing
+    outside the language and never invents a tree. *)
+Theorem C03_reference_parser_sound : forall s t, ref_parse s = Ok t ->
+  exists tokens c, tokenize s = Ok tokens /\ map snd tokens = flat c ++ [TEof] /\ erase c = t.
+Proof. exact ref_parse_sound. Qed.
+Print Assumptions C03_reference_parser_sound.
+
+(** Every token stream ends with exactly one end-of-input token. *)
+Theorem C03_token_stream_shape : forall s r, tokenize s = Ok r ->
+  exists body p, r = body ++ [(p, TEof)] /\ Forall (fun x => snd x <> TEof) body.
+Proof. exact tokenize_ends. Qed.
+Print Assumptions C03_token_stream_shape.
+
+(** The reference parser decides: it never runs out of fuel. *)
+Theorem C03_reference_parser_terminates : forall s, ref_parse s <> OOF.
+Proof. exact ref_parse_never_out_of_fuel. Qed.
+Print Assumptions C03_reference_parser_terminates.
